@@ -15,7 +15,7 @@ NOT_PROVED = ["sign of products v[i-1]*v[i] that underflow in binary64 (not gene
               "C12.f unconditional 'tol>0 result is a subsequence of the tol=0 result' is false (F12-2); proved: sublist of the peak list, and the subsequence claim under three checkable conditions (boundaries of the tol run included in those of the 0 run; first peak of every excursion reaches tol if any does; every later peak reaches tol => equality) - sufficient, not necessary (Props/C12TolSublist)",
               "proved instead: sublist of the peak list"]
 EXHAUSTIVE = True
-PROP_MODULES = ['C12', 'C12Discharged', 'C12Gen', 'C12ZeroPeak', 'C12TolSublist']
+PROP_MODULES = ['C12', 'C12Discharged', 'C12Gen', 'C12ZeroPeak', 'C12TolSublist', 'C12GenZeroPeak']
 
 
 def spec_zc(v, keep):
@@ -521,4 +521,15 @@ def run(ctx):
     _run_main_r7(ctx)
     _LW.corr_switched_tol(ctx)
     corr_single3(ctx, parts=('peaks',))
+    ctx.flush()
+
+
+# ---- tw_rest2: generated zero-and-peak / cluster / slow-Stockwell definitions vs the implementation ---------------------------
+from _rest2_corr import corr_rest2  # noqa: E402
+_run_main_rest2 = run
+
+
+def run(ctx):
+    _run_main_rest2(ctx)
+    corr_rest2(ctx, parts=('peaks',))
     ctx.flush()
